@@ -1,6 +1,9 @@
 use super::{source_loader::ImportResult, ExecutionSignal, Vm};
 use crate::fiber::Fiber;
-use crate::{byte_code::CaptureIndex, constants::MAX_FRAME_SIZE};
+use crate::{
+  byte_code::CaptureIndex,
+  constants::{MAX_CHANNEL_CAPACITY, MAX_FRAME_SIZE},
+};
 use laythe_core::object::{List, LyStr};
 use laythe_core::value::VALUE_UNDEFINED;
 use laythe_core::{
@@ -154,6 +157,14 @@ impl Vm {
       return self.runtime_error_from_str(
         self.builtin.errors.type_,
         "buffer must be an positive integer.",
+      );
+    }
+
+    // the buffer is allocated up front
+    if capacity > MAX_CHANNEL_CAPACITY as f64 {
+      return self.runtime_error_from_str(
+        self.builtin.errors.value,
+        &format!("buffer must be at most {MAX_CHANNEL_CAPACITY}."),
       );
     }
 
